@@ -42,4 +42,6 @@ ChunksOk(e) ==
                              /\ \A i \in 1..Len(e.walk.chunks) : ChunkOk(e.walk.chunks[i])
     [] OTHER -> /\ e.res = "WriterErr" /\ ~Complete(e.walk)                       \* a broken connection: only a prefix went out
                 /\ e.walk.len <= e.srcLen
+                /\ e.walk.digest = e.srcPrefixDigest                              \* ... a prefix of the RIGHT data ...
+                /\ \A i \in 1..Len(e.walk.chunks) : ChunkOk(e.walk.chunks[i])     \* ... in well-formed chunks as far as they are complete
 ====
